@@ -447,6 +447,7 @@ def check_parities(ctx):
     # per-term tallies
     tl = [l for l in loops if "terms" in norm(l.iter) and not any(isinstance(x, ast.For) for s in l.body for x in ast.walk(s))]
     ok = False
+    found_tt = False
     if len(tl) == 1:
         l = tl[0]
         t = norm(l.target.elts[1]) if isinstance(l.target, ast.Tuple) else norm(l.target)
@@ -456,13 +457,20 @@ def check_parities(ctx):
         apps = [c for s in l.body for c in ast.walk(s) if isinstance(c, ast.Call) and isinstance(c.func, ast.Attribute) and c.func.attr == "append"]
         if pcall is not None and len(apps) == 1 and isinstance(apps[0].args[0], (ast.List, ast.Tuple)) and len(apps[0].args[0].elts) == 2:
             even, odd = apps[0].args[0].elts
+            found_tt = True
             ev = body.get(norm(even), even)
             od = body.get(norm(odd), odd)
             ok = norm(pcall.args[0]) == "bitstrings_vector" and norm(pcall.args[1]) == f"{t}.qubits" and norm(ev) == f"({pname} * bitstring_counts).sum()" and norm(od) == f"((1 - {pname}) * bitstring_counts).sum()" and not any(isinstance(x, (ast.Continue, ast.Break)) for x in ast.walk(l))
-    ctx.check(ok, R6, fi.key + ":term-tallies", "[even, odd] = [(p * counts).sum(), ((1 - p) * counts).sum()] on the term's own qubits, for every term", "per-term tallies are not [shots with even parity, shots with odd parity] on the term's own qubits", fi)
+    if not found_tt:
+        # no single loop over the terms that calls check_parity_of_vector and appends one [even, odd] pair: another shape (hoisted parities,
+        # a helper), about which this rule says nothing -- construct lost, not a decided violation
+        ctx.undecided(R6, fi.key + ":term-tallies", "cannot find the loop over the terms that appends one [even, odd] pair computed from check_parity_of_vector", fi)
+    else:
+      ctx.check(ok, R6, fi.key + ":term-tallies", "[even, odd] = [(p * counts).sum(), ((1 - p) * counts).sum()] on the term's own qubits, for every term", "per-term tallies are not [shots with even parity, shots with odd parity] on the term's own qubits", fi)
     # pair tallies
     pl = [l for l in loops if any(isinstance(x, ast.For) for s in l.body for x in ast.walk(s))]
     ok = False
+    found_pt = False
     if len(pl) == 1 and isinstance(pl[0].target, ast.Tuple):
         i1, t1 = (norm(x) for x in pl[0].target.elts)
         il = [x for x in pl[0].body if isinstance(x, ast.For)]
@@ -471,6 +479,7 @@ def check_parities(ctx):
             body = {norm(s.targets[0]): s.value for s in il[0].body if isinstance(s, ast.Assign)}
             pn = {k: v for k, v in body.items() if isinstance(v, ast.Call) and dotted(v.func) == "check_parity_of_vector"}
             by_term = {norm(v.args[1]): k for k, v in pn.items()}
+            found_pt = bool(pn)
             eqn = next((k for k, v in body.items() if norm(v) in (f"np.abs({by_term.get(t1 + '.qubits')} - {by_term.get(t2 + '.qubits')})", f"np.abs({by_term.get(t2 + '.qubits')} - {by_term.get(t1 + '.qubits')})")), None)
             augs = [s for s in il[0].body if isinstance(s, ast.AugAssign) and isinstance(s.op, ast.Add)]
             slots = {}
@@ -480,7 +489,10 @@ def check_parities(ctx):
                     if tt.endswith(f"[{i1}, {i2}][{slot}]") or tt.endswith(f"[{i1}, {i2}, {slot}]"):
                         slots[slot] = norm(s.value)
             ok = eqn is not None and slots.get("0") == f"((1 - {eqn}) * bitstring_counts).sum()" and slots.get("1") in (f"({eqn} * bitstring_counts).sum()", f"(({eqn}) * bitstring_counts).sum()")
-    ctx.check(ok, R6, fi.key + ":pair-tallies", "slot 0 counts shots where the two parities agree (even product), slot 1 where they differ, for every ordered pair", "pairwise tallies are not [agreeing, differing] parities indexed by the pair's own positions", fi)
+    if not found_pt:
+        ctx.undecided(R6, fi.key + ":pair-tallies", "cannot find the nested loops over enumerate(terms) that compute both parities with check_parity_of_vector in the inner body", fi)
+    else:
+      ctx.check(ok, R6, fi.key + ":pair-tallies", "slot 0 counts shots where the two parities agree (even product), slot 1 where they differ, for every ordered pair", "pairwise tallies are not [agreeing, differing] parities indexed by the pair's own positions", fi)
     rets = returned_exprs(fi.node)
     ok = len(rets) == 1 and isinstance(rets[0], ast.Call) and dotted(rets[0].func) == "Parities" and norm(rets[0].args[0]) in ("np.array(values)", "values")
     ctx.check(ok, R6, fi.key + ":result", "Parities(values, correlations)", "the tallies are not returned as Parities(values, correlations)", fi)
